@@ -108,8 +108,18 @@ Definition ref_verdict (es : list (bool * rx)) (alone_ans : list bool) : bool :=
   ref_any false es alone_ans && negb (ref_any true es alone_ans).
 Definition has_include (es : list (bool * rx)) : bool := existsb (fun e => negb (fst e)) es.
 
+(* reference reading of an entry text: exactly one leading '-' is the exclusion mark *)
+Definition ref_parse_entry (t : str) : bool * str :=
+  match t with
+  | c :: r => if c =? 45 then (true, r) else (false, t)
+  | [] => (false, [])
+  end.
+Definition lcase_parse_ok (c : lcase) : bool :=
+  forallb2 (fun t p => parsed_eqb (ref_parse_entry t) p) (lc_texts c) (lc_parsed c).
+
 Definition lcase_prop_ok (c : lcase) : bool :=
-  negb (lc_domain c) ||
+  lcase_parse_ok c &&
+  (negb (lc_domain c) ||
   (let want := if has_include (lc_entries c) then 0 else 1 in
    (lc_ctor c =? want) && (lc_pctor c =? want) &&
    ((want =? 1) ||
@@ -117,7 +127,7 @@ Definition lcase_prop_ok (c : lcase) : bool :=
        let v := ref_verdict (lc_entries c) (h_alone o) in
        (length (h_alone o) =? length (lc_entries c))%nat &&
        bool_eqb (h_match o) v && bool_eqb (h_inv o) (negb v) && bool_eqb (h_inv2 o) v && bool_eqb (h_perm o) v)
-      (lc_obs c))).
+      (lc_obs c)))).
 
 (* ---- end to end: the real binary started with --deny-domains / --mitm-domains, requests for target hosts ---- *)
 (* the reference identifies a fully qualified name with and without its trailing dot at the deny and the direct site
